@@ -890,8 +890,10 @@ def lalrpop_sym_type(sym, types):
 # assembly
 
 class Assembler:
-    def __init__(self, unit):
+    def __init__(self, unit, demote=None):
         self.unit = unit
+        self.demote = dict(demote or {})      # fn key -> 'import' (contract kept, body dropped) | 'bare' (signature only)
+        self.demoted = []
         self.contracts = load_all_contracts()
         self.lines = []
         self.linemap = []      # (first_line, last_line, info)
@@ -938,7 +940,7 @@ class Assembler:
                             'src_sha256': hashlib.sha256(text.encode()).hexdigest()})
         self.emit(body, {'kind': 'type', 'name': name, 'file': rel})
 
-    def emit_fn(self, key, imported):
+    def emit_fn(self, key, imported, bare=False):
         if key not in self.contracts:
             raise ExtractError('no contract for %s' % key)
         c = self.contracts[key]
@@ -1123,7 +1125,7 @@ class Assembler:
         # clauses
         for kind in ('requires', 'ensures', 'decreases'):
             cl = [x for x in c.clauses if x.kind == kind]
-            if not cl:
+            if not cl or bare:
                 continue
             self.emit('    %s' % kind)
             for x in cl:
@@ -1241,7 +1243,24 @@ class Assembler:
                 rel, kind, name = ps[0], ps[1], ps[2]
                 self.emit_type(rel, kind, name, ps[4] if len(ps) >= 5 and ps[3] == 'as' else None)
             elif d == 'fn':
-                self.emit_fn(rest, False)
+                mode = self.demote.get(rest)
+                if mode:
+                    c = self.contracts.get(rest)
+                    tags = sorted(set(t for x in (c.clauses if c else []) for t in x.tags) | set(c.safety_tags if c else []) |
+                                  set(t for cls in (c.loops.values() if c else []) for x in cls for t in x.tags))
+                    self.demoted.append({'key': rest, 'mode': mode, 'tags': tags, 'name': c.name if c else rest,
+                                         'clauses': [x.cid for x in (c.clauses if c else [])] + [rest + '.safety']})
+                    try:
+                        self.emit_fn(rest, True, bare=(mode == 'bare'))
+                    except ExtractError as e:
+                        e.fn_key = rest
+                        raise
+                else:
+                    try:
+                        self.emit_fn(rest, False)
+                    except ExtractError as e:
+                        e.fn_key = rest
+                        raise
             elif d == 'import':
                 self.emit_fn(rest, True)
             else:
@@ -1254,14 +1273,14 @@ class Assembler:
         return [i + 1 for i, l in enumerate(self.lines) if '//@canary' in l]
 
 
-def assemble(unit, outdir):
-    a = Assembler(unit)
+def assemble(unit, outdir, demote=None):
+    a = Assembler(unit, demote)
     a.run_template(os.path.join(VERIF, 'contracts', unit + '.unit.rs'))
     os.makedirs(outdir, exist_ok=True)
     rs = os.path.join(outdir, unit + '.rs')
     with open(rs, 'w') as f:
         f.write(a.result())
-    meta = {'unit': unit, 'file': rs, 'canary_lines': a.canary_lines(), 'linemap': a.linemap, 'functions': a.functions, 'rewrites': a.rewrites,
+    meta = {'unit': unit, 'file': rs, 'demoted': a.demoted, 'canary_lines': a.canary_lines(), 'linemap': a.linemap, 'functions': a.functions, 'rewrites': a.rewrites,
             'hashes': a.hashes, 'dropped': a.dropped}
     with open(os.path.join(outdir, unit + '.meta.json'), 'w') as f:
         json.dump(meta, f, indent=1)
